@@ -81,7 +81,18 @@ def _wrun(chunk):
                 first = False
                 r2 = mod.run_case(case)
                 if _obs(r) != _obs(r2):
-                    raise HarnessError("determinism self-test failed for case %r:\n%r\n%r" % (r.get("id"), _obs(r), _obs(r2)))
+                    if r.get("viol") or r2.get("viol"):
+                        # the two runs differ and at least one of them observed a violation on the real code: the relay keeps state
+                        # across histories (long-lived storage / handler objects are reused on purpose).  Report what was observed.
+                        seen = {(v["clause"], v["sig"]) for v in r.get("viol", [])}
+                        for v in r2.get("viol", []):
+                            if (v["clause"], v["sig"]) not in seen:
+                                v = dict(v)
+                                v["detail"] = str(v.get("detail")) + " | (observed when the same case was run a second time in the same process)"
+                                r.setdefault("viol", []).append(v)
+                        r.setdefault("extra", {})["cases_whose_second_run_differed"] = 1
+                    else:
+                        raise HarnessError("determinism self-test failed for case %r:\n%r\n%r" % (r.get("id"), _obs(r), _obs(r2)))
         except HarnessError as e:
             out.append({"harness_error": "%s\n%s" % (e, traceback.format_exc()), "case": repr(case)[:500]})
             continue
